@@ -415,6 +415,56 @@ class World:
                     r.violation(f'C17/first-start/later-start-fails/{mode}', f'after a {mode} at operation {k} of the first save the next start does not leave a complete file', dict(case_base, sub='first-start', op=k))
                     return
 
+    def enumerate_restart(self, cls, specs, case_base):
+        """a restart over an existing file with values that are not the defaults: every file-system operation of the start
+        (loading, the save that follows) fails once as a crash and once as an I/O error - afterwards the file holds the
+        snapshot it held before or the one a fault-free restart leaves, nothing in between"""
+        r, rng = self.r, self.rng
+        d = os.path.join(self.root, 'restart')
+        shutil.rmtree(d, ignore_errors=True)
+        os.makedirs(d)
+        self.inj.reset()
+        try:
+            m = self.mk(cls, d)
+            m.writeInitParams()
+            for i, s_ in enumerate(specs):
+                setattr(m, f'p{i}', gen_dt.to_py(s_['spec'], gen_dt.complete(s_['spec'], gen_dt.gen_valid(s_['spec'], rng, True), rng)))
+            m.saveParameters()
+        except Exception:
+            return
+        old = self.disk(d)
+        if not isinstance(old, dict) or old != self.snapshot(m):
+            return          # (a save that was skipped: values still waiting to be written - judged elsewhere)
+        raw = self.target(d).read_bytes()
+        self.inj.reset()
+        try:
+            self.mk(cls, d)
+        except Exception as e:
+            r.violation('C17/startup-fails/restart', f'{type(e).__name__}: {e}'[:200], dict(case_base, sub='restart'))
+            return
+        nops = self.inj.n
+        new = self.disk(d)
+        r.count('restarts_enumerated')
+        for mode in ('crash', 'error'):
+            for k in range(1, nops + 1):
+                self.inj.reset()
+                self.target(d).write_bytes(raw)
+                self.inj.reset(at=k, mode=mode)
+                try:
+                    self.mk(cls, d)
+                except self.Crash:
+                    pass
+                except Exception:
+                    pass
+                what = self.inj.fired
+                self.inj.reset()
+                r.count('restart_faults')
+                disk = self.disk(d)
+                if disk != old and disk != new:
+                    r.violation(f'C17/not-atomic/restart/{mode}', f'{mode} at operation {k} ({what}) of a restart over a complete file leaves {str(disk)[:80]} on disk '
+                                f'(before: {str(old)[:80]})', dict(case_base, sub='restart', op=k, opname=what, before=old, after_fault_free_restart=new))
+                    return
+
     def enumerate_faults(self, cls, specs, d0, old, new, name, pyvalue, case_base):
         r = self.r
         d = os.path.join(self.root, 'work')
@@ -608,6 +658,7 @@ def run_shard(shard):
             base = {'specs': specs, 'seed': [shard['seed'], shard['idx'], i]}
             w.run_module(specs, base)
             w.enumerate_first_start(w.make_class(specs), specs, base)
+            w.enumerate_restart(w.make_class(specs), specs, base)
             w.run_corruptions(specs, base)
             for _ in range(6):
                 w.run_history(specs, base)
